@@ -1,6 +1,7 @@
 import SeqVerif.Model.SearchDocsTotals
 import SeqVerif.Model.StoreSearch
 import SeqVerif.Model.ApiSpec
+import SeqVerif.Model.MergeAggs
 import SeqVerif.Extracted.C05
 /-!
 # C05 - results are independent of how documents are split over fractions and shards
@@ -204,6 +205,43 @@ theorem c05_store_eq_spec (c : Cfg) (fs : List FracIdx) (q : Spec.Query) (from_ 
       ((docsOf (fs.map (·.toFrac q from_ to_))).Nodup →
         r.total = (Spec.search (fs.flatMap (fun f => EvalTree.docsOf f.idx)) q from_ to_ (!c.desc) L c.withTotal).total) :=
   storeSearch_eq_spec c fs q from_ to_ L hok hmax
+
+/-! ## aggregations through `MergeQPRs` (Model/MergeAggs.lean, on C06's container model) -/
+
+/-- **`SamplesContainer.Merge` is the componentwise monoid operation**: `NotExists`, `Total` and `Sum` add up - `NotExists`
+regardless of either `Total` (a destination that so far only counted value-less documents keeps that count when the
+first container with values arrives). -/
+theorem c05_sc_merge_additive (lim : Nat) (pick : List Int → Nat) (h hist : Agg.SC) (hwf : hist.WF) :
+    (Agg.SC.merge lim pick h hist).notExists = h.notExists + hist.notExists ∧
+    (Agg.SC.merge lim pick h hist).total = h.total + hist.total ∧
+    (Agg.SC.merge lim pick h hist).sum = h.sum + hist.sum :=
+  sc_merge_additive lim pick h hist hwf
+
+/-- **aggregation of any partition = aggregation of the union.**  For any number of partial results merged with any
+bracketing (fractions per iteration, shards): every bin of the result has `Total` = number of values, `NotExists` = sum
+of the partial `NotExists`, `Sum` = sum of the values of ALL partial results (induction over the merge tree:
+`Agg.ATree.rep`). -/
+theorem c05_agg_partition_invariant (t : Agg.MTree Agg.ALeaf)
+    (hleaf : ∀ l, l ∈ t.leaves → Agg.KeysNodup l.a.bins ∧
+      ∀ k, Agg.ORep (l.pres k) (l.vals k) (l.ne k) false (l.a.get k))
+    (k : Agg.Bin) (c : Agg.SC) (hc : (t.eval (Agg.mergeLeaf sampleLim pick0)).a.get k = some c) :
+    c.total = (Agg.binVals t.leaves k).length ∧ c.notExists = Agg.binNe t.leaves k ∧ c.sum = (Agg.binVals t.leaves k).sum :=
+  tree_bin_sums t hleaf k c hc
+
+/-- ... hence the order in which the pieces are merged (desc: newest fraction first, asc: oldest first, shard
+arrival order) and their grouping do not matter -/
+theorem c05_agg_order_irrelevant (t1 t2 : Agg.MTree Agg.ALeaf) (hp : t1.leaves.Perm t2.leaves)
+    (hleaf : ∀ l, l ∈ t1.leaves → Agg.KeysNodup l.a.bins ∧
+      ∀ k, Agg.ORep (l.pres k) (l.vals k) (l.ne k) false (l.a.get k))
+    (k : Agg.Bin) (c1 c2 : Agg.SC) (h1 : (t1.eval (Agg.mergeLeaf sampleLim pick0)).a.get k = some c1)
+    (h2 : (t2.eval (Agg.mergeLeaf sampleLim pick0)).a.get k = some c2) :
+    c1.total = c2.total ∧ c1.notExists = c2.notExists ∧ c1.sum = c2.sum :=
+  trees_agree t1 t2 hp hleaf k c1 c2 h1 h2
+
+/-- the case the "first non-empty container" shortcut gets wrong: a bin that so far holds only `NotExists = 2` merged
+with a container with one value and `NotExists = 1` keeps all three value-less documents -/
+theorem c05_sc_merge_valueless_first :
+    (Agg.SC.merge 8096 (fun _ => 0) ⟨Agg.maxInt64, Agg.minInt64, 0, 0, 2, []⟩ ⟨5, 5, 5, 1, 1, []⟩).notExists = 3 := by decide
 
 /-! ## the public request: proxy request -> store request -> parameters -> result (Model/ApiSearch.lean) -/
 
